@@ -554,7 +554,11 @@ func (c *ctx) iqDefault(ps []Pat, typ string, n xml.Name, class string) {
 		return
 	}
 	pl := "<" + n.Local + ` xmlns="` + n.Space + `"/>`
-	body := []byte(`<iq type="` + typ + `" id="d1" from="a@example.org/r">` + pl + `</iq></stream:stream>`)
+	ta := ` type="` + typ + `"`
+	if typ == "" {
+		ta = ""
+	}
+	body := []byte(`<iq` + ta + ` id="d1" from="a@example.org/r">` + pl + `</iq></stream:stream>`)
 	res := c08.Serve(ns, c08.LocalJID, c08.RemoteJID, body, nil, func(xmpp.Handler) xmpp.Handler { return m })
 	if res.Panic != "" || res.Stall {
 		r.Line(line, "PANIC-OR-STALL")
@@ -905,11 +909,24 @@ func subset(u []Pat, mask int) []Pat {
 	return ps
 }
 
+// the stanza types of every kind: the declared constants, then the empty type, a type the
+// library does not know and a case variant of a known one (a pattern's type and a stanza's type
+// are compared verbatim, no side is normalised)
 var typesOf = map[string][]string{
 	"t": {""},
-	"i": {"get", "set", "result", "error"},
-	"m": {"normal", "chat", "error", "groupchat", "headline"},
-	"p": {"", "unavailable", "subscribe", "probe", "error"},
+	"i": {"get", "set", "result", "error", "", "xx", "GET"},
+	"m": {"normal", "chat", "error", "groupchat", "headline", "", "xx", "Chat"},
+	"p": {"", "unavailable", "subscribe", "probe", "error", "xx", "Unavailable"},
+}
+
+// attrType is the stanza type a message / presence with the given type attribute ("" = no
+// attribute) has according to stanza.NewMessage / NewPresence.
+func attrType(kind, attr string) string {
+	st := xml.StartElement{Name: xml.Name{Space: c08.NSClient, Local: "message"}}
+	if attr != "" {
+		st.Attr = []xml.Attr{{Name: xml.Name{Local: "type"}, Value: attr}}
+	}
+	return effectiveType(kind, st)
 }
 
 func genStanza(rnd *common.Rand, local, typ string) (string, int) {
@@ -1030,7 +1047,10 @@ func Run(r *common.Run) error {
 				if mask&(1<<i) != 0 {
 					ps = append(ps, Pat{Kind: "i", Typ: typ, Name: s})
 				} else if (i+ti)%2 == 0 {
-					ps = append(ps, Pat{Kind: "i", Typ: typesOf["i"][(ti+1)%4], Name: s})
+					ps = append(ps, Pat{Kind: "i", Typ: typesOf["i"][(ti+1)%len(typesOf["i"])], Name: s})
+					if ti%2 == 0 {
+						ps = append(ps, Pat{Kind: "i", Typ: typesOf["i"][(ti+4)%len(typesOf["i"])], Name: s})
+					}
 				}
 			}
 			c.iqDefault(ps, typ, q, "exhaustive")
@@ -1050,6 +1070,26 @@ func Run(r *common.Run) error {
 		}
 	}
 	c.register(nil, Pat{Kind: "t", Name: xml.Name{Space: "urn:a", Local: "message"}}, "ok")
+	// every pair of types of a kind: a pattern of type T1 is found by lookups of type T1 only
+	// (every shape), and does not stand in the way of registering the same name for type T2
+	for _, kind := range []string{"i", "m", "p"} {
+		for i1, t1 := range typesOf[kind] {
+			for i2, t2 := range typesOf[kind] {
+				sh := shapes[(i1+i2)%4]
+				c.lookup([]Pat{{Kind: kind, Typ: t1, Name: sh}}, kind, t2, q, "type-pairs")
+				c.lookup([]Pat{{Kind: kind, Typ: t1, Name: shapes[3]}, {Kind: kind, Typ: t2, Name: shapes[0]}}, kind, t2, q, "type-pairs")
+				mode := "ok"
+				c.register([]Pat{{Kind: kind, Typ: t1, Name: sh}}, Pat{Kind: kind, Typ: t2, Name: sh}, mode)
+				c.hist(c08.NSClient, []hop{
+					{op: 'R', pat: Pat{Kind: kind, Typ: t1, Name: sh}, fn: i2%2 == 1},
+					{op: 'L', pat: Pat{Kind: kind, Typ: t2, Name: q}},
+					{op: 'R', pat: Pat{Kind: kind, Typ: t2, Name: sh}, fn: i1%2 == 1},
+					{op: 'L', pat: Pat{Kind: kind, Typ: t1, Name: q}},
+					{op: 'L', pat: Pat{Kind: kind, Typ: t2, Name: q}},
+				}, "type-pairs")
+			}
+		}
+	}
 	r.Exhaustive = append(r.Exhaustive, "every subset (quick: every third) of the 9 patterns over {\"\",urn:a,urn:b} x {\"\",x,y} per lookup kind x all 9 query names; the 16 subsets of the four shapes of one name x every kind and type with distractor patterns; registration of every pattern as new / duplicate / nil / nil func")
 
 	// per-child dispatch: fixed stanzas with all consumption amounts, then random
@@ -1225,7 +1265,12 @@ func Run(r *common.Run) error {
 			styp := typesOf[kind][rnd.Intn(len(typesOf[kind]))]
 			s, ntok := largeStanza(rnd, local, styp, size)
 			// the wildcard and a few specific patterns of the stanza's type
+			raw := styp
+			styp = attrType(kind, styp)
 			ps := []Pat{{Kind: kind, Typ: styp, Name: xml.Name{}}}
+			if raw != styp {
+				ps = append(ps, Pat{Kind: kind, Typ: raw, Name: xml.Name{}})
+			}
 			for _, p := range universe(kind, styp)[1:] {
 				if rnd.Chance(1, 3) {
 					ps = append(ps, p)
@@ -1263,12 +1308,17 @@ func Run(r *common.Run) error {
 		}
 		styp := typesOf[kind][rnd.Intn(len(typesOf[kind]))]
 		s, ntok := genStanza(rnd, local, styp)
+		raw := styp
+		styp = attrType(kind, styp)
 		var ps []Pat
 		for ui, k2 := range []string{kind, kind, "m", "p", "i"} {
 			ts := typesOf[k2]
 			t2 := ts[rnd.Intn(len(ts))]
 			if ui == 0 {
 				t2 = styp
+			}
+			if ui == 1 && raw != styp {
+				t2 = raw
 			}
 			u := universe(k2, t2)
 			for _, p := range u {
